@@ -277,3 +277,12 @@ mod tests {
         assert_eq!(Windows1252Encoding::decode(data), cow);
     }
 }
+
+/// Verification hooks. Compiled only with `--cfg jomini_verif`.
+#[cfg(jomini_verif)]
+pub mod verif_hooks {
+    /// `trim_ascii_end`
+    pub fn trim_ascii_end(d: &[u8]) -> &[u8] {
+        super::trim_ascii_end(d)
+    }
+}
